@@ -6,7 +6,20 @@ ADM_THEOREMS = ["C12_connected_only_after_all_accept", "C12_first_rejection_stop
                 "C12_connect_error_carries_rejection", "C12_rejected_leaves_nothing"]
 EV_THEOREMS = ["C12_event_mw_sees_name_and_args", "C12_rejected_event_not_delivered",
                "C12_accepted_event_delivered", "C12_event_first_rejection_stops"]
+SHARD = 80
 ENV_RESP = ("timeout", "dialfail")      # symptoms that can be environmental: the suite is repeated once
+
+
+def eval_both(ctx, name, terms, oracle_fn, agree_fn, both_fn):
+    """One kernel pass evaluating oracle && agree on every case; only the cases that fail it are
+    evaluated again, separately, to tell an oracle failure from a correspondence failure."""
+    bad = ctx.coq_eval_cases(name + "_both", HDR, terms, both_fn, shard=SHARD)
+    if not bad:
+        return [], []
+    sub = [terms[i] for i in bad]
+    bo = ctx.coq_eval_cases(name + "_oracle", HDR, sub, oracle_fn, shard=SHARD)
+    ba = ctx.coq_eval_cases(name + "_agree", HDR, sub, agree_fn, shard=SHARD)
+    return [bad[i] for i in bo], [bad[i] for i in ba]
 
 
 # ------------------------------------------------------------------ admission
@@ -21,9 +34,10 @@ def room_code(r):
 
 
 def gview(v):
-    return gpair(gbool(v["listed"]), gbool(v["fetch"]), gbool(v["connected"]), gbool(v["has_rooms"]),
-                 glist(gN(room_code(r)) for r in v["rooms"]), gbool(v["reach_all"]), gbool(v["reach_own"]),
-                 glist(gN(room_code(r)) for r in v["reach_via"]))
+    return "(mkv %s %s %s %s %s %s %s %s)" % (
+        gbool(v["listed"]), gbool(v["fetch"]), gbool(v["connected"]), gbool(v["has_rooms"]),
+        glist(gN(room_code(r)) for r in v["rooms"]), gbool(v["reach_all"]), gbool(v["reach_own"]),
+        glist(gN(room_code(r)) for r in v["reach_via"]))
 
 
 def adm_term(r):
@@ -33,14 +47,14 @@ def adm_term(r):
     resp = {"connect": 0, "connect_error": 1}.get(r["resp"], 2)
     kind = {"text": 1, "data": 2}.get(r["msg_kind"], 0)
     if resp == 1 and r["msg_mw"] >= 0 and r["msg_code"] >= 0:
-        msg = gpair(gN(kind), gN(r["msg_mw"]), gN(r["msg_code"]))
+        msg = (kind, r["msg_mw"], r["msg_code"])
     elif resp == 1:
-        msg = gpair(gN(kind), gN(999999), gN(999999))   # a message the rig cannot attribute
+        msg = (kind, 999999, 999999)      # a message the rig cannot attribute
     else:
-        msg = gpair(gN(0), gN(0), gN(0))
-    misc = gpair(gbool(r["resp_sid"]), gbool(r["probe"]), gN(r["trap"]), gN(r["anyh"]),
-                 gN(r["final_evt"]), gbool(r["h_waited"]))
-    return "(%s : acase)" % gpair(chain, calls, hviews, gN(resp), msg, gview(r["post"]), gview(r["final"]), misc)
+        msg = (0, 0, 0)
+    return "(mkacase %s %s %s %s %s %s %s %s %s %s %s %s %s %s %s)" % (
+        chain, calls, hviews, gN(resp), gN(msg[0]), gN(msg[1]), gN(msg[2]), gview(r["post"]), gview(r["final"]),
+        gbool(r["resp_sid"]), gbool(r["probe"]), gN(r["trap"]), gN(r["anyh"]), gN(r["final_evt"]), gbool(r["h_waited"]))
 
 
 def adm_describe(r):
@@ -102,8 +116,7 @@ def adm_suite(ctx, vh, name, args, goclient=False):
     rj = [r for r in rows if r["resp"] == "connect_error" and any(r["j"])]
     if rj:
         ctx.sample({"suite": name, "case": {k: rj[0][k] for k in ("nsp", "k", "v", "j", "calls", "resp", "msg_kind", "msg_mw", "post")}})
-    bad_oracle = ctx.coq_eval_cases("adm_oracle_" + name.replace("-", "_"), HDR, terms, "oracle", shard=600)
-    bad_agree = ctx.coq_eval_cases("adm_agree_" + name.replace("-", "_"), HDR, terms, "agree", shard=600)
+    bad_oracle, bad_agree = eval_both(ctx, "adm_" + name.replace("-", "_"), terms, "oracle", "agree", "oracle_and_agree")
     ctx.obligation("correspondence:admission/" + name, "correspondence", not bad_agree,
                    "%d live admissions, %d differ from the model's prediction" % (len(rows), len(bad_agree)))
     ctx.obligation("oracle:admission/" + name, "oracle", not bad_oracle and not stray,
@@ -150,8 +163,9 @@ def ev_term(r):
     oh = glist(gpair(gN(h["idx"]), glist(gval(a) for a in h["args"])) for h in r["h"])
     ack_ok = len(r["ack"]) == 1 and r["ack"][0] == ev_expected_ack(r)
     done = r["done"] == "ok" and r["ack_done"] in ("ok", "n/a")
-    return "(%s : ecase)" % gpair(hs, chain, gbool(r["with_ack"]), gstring_bytes(r["sig"]), sent, gbool(r["sig"] != "badtype"),
-                                  omw, oh, gN(len(r["errs"])), gpair(gN(len(r["ack"])), gbool(ack_ok)), gbool(done))
+    return "(mkecase %s %s %s %s %s %s %s %s %s %s %s %s)" % (
+        hs, chain, gbool(r["with_ack"]), gstring_bytes(r["sig"]), sent, gbool(r["sig"] != "badtype"),
+        omw, oh, gN(len(r["errs"])), gN(len(r["ack"])), gbool(ack_ok), gbool(done))
 
 
 def ev_describe(r):
@@ -196,8 +210,7 @@ def ev_suite(ctx, vh, args):
         key = (r["nsp"], r["sig"], tuple(r["chain"]), r["with_ack"]) if r["chain"] else None
         ctx.count(1, nontrivial_key=key, dist="events:%s:%s" % (r["sig"], "reject" if 1 in r["chain"] else "accept"))
     ctx.sample({"suite": "events", "case": next((r for r in rows if r["sig"] == "num" and r["chain"]), rows[0])})
-    bad_oracle = ctx.coq_eval_cases("ev_oracle", HDR, terms, "eoracle", shard=600)
-    bad_agree = ctx.coq_eval_cases("ev_agree", HDR, terms, "eagree", shard=600)
+    bad_oracle, bad_agree = eval_both(ctx, "ev", terms, "eoracle", "eagree", "eoracle_and_eagree")
     ctx.obligation("correspondence:events", "correspondence", not bad_agree,
                    "%d live events, %d differ from the model's prediction" % (len(rows), len(bad_agree)))
     ctx.obligation("oracle:events", "oracle", not bad_oracle,
